@@ -385,11 +385,26 @@ Variable ntr : nat -> bool.
 Hypothesis Hrec : forall d v cs, recE d v = Some cs ->
   flat cs <> [] /\ (ntr d = true -> hd_class (flat cs) = true) /\ reads_f (recD d) (flat cs) (recV d v).
 
-(* an optional, untagged field reads a gap null as its nil value *)
-Lemma nil_reads d f nv : field_ok d f = true -> f_skip f = false -> fty_all okty (f_ty f) -> f_tag f = None -> nil_of f = Some nv ->
-  reads_f (field_action c recD f) [246] (Some nv).
+Lemma handler_of_nil d f nv : field_ok d f = true -> f_skip f = false -> nil_of f = Some nv -> has_handler f = true.
 Proof.
-  intros Hok Hs Hall Htag Hnil fuel r p L Hfu HL Hp. unfold field_action. rewrite Htag. cbn [dec_tag_check].
+  intros Hok Hs Hn. unfold field_ok in Hok. rewrite Hs in Hok.
+  apply andb_prop in Hok as [_ Hok]. apply andb_prop in Hok as [Hok _]. apply andb_prop in Hok as [_ Hsyn].
+  unfold nil_of in Hn. unfold has_handler. destruct (f_codec f) as [| |[|]]; try reflexivity;
+    destruct (f_synopt f); try reflexivity; try discriminate. destruct (is_opt_fty (f_ty f)); [reflexivity|discriminate].
+Qed.
+
+(* an optional field reads a gap null: untagged, as its nil value; tagged, it accepts the bare null and leaves
+   its slot alone (decode.rs: `if <optional> && Type::Null == d.datatype()? { d.skip()? }`) *)
+Lemma nil_reads d f nv : field_ok d f = true -> f_skip f = false -> fty_all okty (f_ty f) -> nil_of f = Some nv ->
+  reads_f (field_action c recD f) [246] (if has_tag f then None else Some nv).
+Proof.
+  intros Hok Hs Hall Hnil fuel r p L Hfu HL Hp. unfold field_action.
+  rewrite (handler_of_nil d f nv Hok Hs Hnil), andb_true_r.
+  destruct (has_tag f) eqn:Etag.
+  { cbn [app]. rewrite (bind_ok _ _ _ _ _ (datatype_null _ _ _)). cbn [ctype_is_null].
+    rewrite (bind_ok _ _ _ _ _ (skip_null _ _ _ _)). reflexivity. }
+  assert (Htag : f_tag f = None) by (unfold has_tag in Etag; destruct (f_tag f); [discriminate|reflexivity]).
+  rewrite Htag. cbn [dec_tag_check].
   unfold bind at 1. unfold ret at 1. unfold try_unknown.
   assert (G : dec_field_fn c recD f fuel (mkdst p ([246] ++ r) L) = (Ok nv, mkdst (p + len [246]) r L)); [|now rewrite G].
   unfold field_ok in Hok. rewrite Hs in Hok. apply andb_prop in Hok as [_ Hok]. apply andb_prop in Hok as [Hok Hc]. apply andb_prop in Hok as [_ Hsyn].
@@ -433,7 +448,7 @@ Proof. induction fsR as [|f r IH]; intro p; cbn [migrate_fields map assemble_val
 Theorem fields_compat_reads dW dR e sh fsW fsR vsW cs :
   fields_ok dW fsW = true -> fields_ok dR fsR = true ->
   fields_all okty fsR -> fields_rt ntr fsR = true ->
-  body_compat e fsW fsR ->
+  body_compat fsW fsR ->
   (* what only the writer knows is skipped as one item (C06 through C08, discharged separately) *)
   (forall pf z, In pf (sorted_fields fsW) -> (forall q, In q (sorted_fields fsR) -> pf_idx q <> pf_idx pf) ->
      enc_field_fn recE (pf_fld pf) (pf_val vsW pf) = Some z ->
@@ -461,7 +476,10 @@ Proof.
   { intros w Hw. apply in_sorted_fields in Hw as [Hin Hs]. unfold fields_ok in HokW. apply andb_prop in HokW as [H1 _].
     rewrite forallb_forall in H1. auto. }
   set (rvf := fun f : field => migrate_field recV fsW vsW f).
-  set (tgt := fun q : pfield => Some (rvf (pf_fld q))).
+  set (tgt := fun q : pfield => match at_index dl (f_idx (pf_fld q)) with
+                                | Some _ => Some (rvf (pf_fld q))
+                                | None => if has_tag (pf_fld q) then init_slot q else Some (rvf (pf_fld q))
+                                end).
   set (rv := fun q : pfield => rvf (pf_fld q)).
   assert (Hmig : VList (migrate_fields recV fsW vsW fsR) = VList (assemble_vals fsR 0 rv)) by (f_equal; apply migrate_assemble).
   rewrite Hmig. clear Hmig.
@@ -475,25 +493,27 @@ Proof.
       destruct (field_action_reads c okty Hty recE recD recV ntr Hrec dR (pf_fld q) (pf_val vsW pf) z H1 H2 H3 H4 Hz) as [Hne Hrd].
       split; [assumption|]. exists (Some (wval recV (pf_fld q) (pf_val vsW pf))). split.
       * destruct (eraseb_proj _ _ Eer) as (_ & -> & _). exact Hrd.
-      * cbn [upd]. unfold tgt, rvf, migrate_field. f_equal. fold dl. replace (f_idx (pf_fld q)) with (pf_idx pf) by (symmetry; exact Hqi).
+      * cbn [upd]. unfold tgt, rvf, migrate_field. fold dl. replace (f_idx (pf_fld q)) with (pf_idx pf) by (symmetry; exact Hqi).
         rewrite (HsomeW pf Hpf). reflexivity.
     + apply Hsk; [assumption| |assumption]. intros q Hq E. destruct (find_field_some sR (pf_idx pf) 0%nat q Hq E) as (k & q' & Hf'). congruence.
   - (* a gap null *)
     intros -> j Hj. unfold reads_item. destruct (find_field sR j 0) as [[k q]|] eqn:Ef.
     + apply find_field_in in Ef as [Hq Hqi]. destruct (HfR q Hq) as (HinR & H1 & H2 & H3 & H4).
-      destruct (Hronly (pf_fld q) HinR H2) as [Hnil Htag].
-      { intros fW HfWin HfWs E. apply In_nth_error in HfWin as [kk Hkk].
+      assert (Hnil : nil_of (pf_fld q) <> None).
+      { apply (Hronly (pf_fld q) HinR H2). intros fW HfWin HfWs E. apply In_nth_error in HfWin as [kk Hkk].
         apply (Hj (mkpf kk fW) (in_sorted_nth fsW kk fW Hkk HfWs)). unfold pf_idx. cbn [pf_fld]. rewrite E. exact Hqi. }
       destruct (nil_of (pf_fld q)) as [nv|] eqn:En; [|congruence].
-      exists (Some nv). split; [apply (nil_reads dR (pf_fld q) nv H1 H2 H3 (Htag eq_refl) En)|].
-      cbn [upd]. unfold tgt, rvf, migrate_field, nil_or_unit. fold dl. rewrite HnoneW, En; [reflexivity|].
-      intros w Hw E. apply (Hj w Hw). rewrite E. exact Hqi.
+      exists (if has_tag (pf_fld q) then None else Some nv). split; [apply (nil_reads dR (pf_fld q) nv H1 H2 H3 En)|].
+      unfold tgt, rvf, migrate_field, nil_or_unit. fold dl. rewrite HnoneW.
+      2:{ intros w Hw E. apply (Hj w Hw). rewrite E. exact Hqi. }
+      rewrite En. destruct (has_tag (pf_fld q)); reflexivity.
     + intros r p L HL Hp. change ([246] ++ r) with (246 :: r). now rewrite skip_null.
   - (* every slot resolves to the migrated value *)
-    intros q Hq. unfold tgt, rv. destruct (met e LW vsW q) eqn:Em; [reflexivity|].
+    intros q Hq. unfold tgt, rv.
     destruct (HfR q Hq) as (HinR & H1 & H2 & H3 & H4). unfold rvf, migrate_field. fold dl.
     destruct (at_index dl (f_idx (pf_fld q))) as [[fW v]|] eqn:Eat.
-    + (* a field both versions know, whose value the writer left out: it was nil *)
+    + destruct (met e LW vsW q) eqn:Em; [reflexivity|].
+      (* a field both versions know, whose value the writer left out: it was nil *)
       apply at_index_in in Eat as [Hin Hidx]. eapply Permutation_in in Hin; [|exact Hperm].
       apply in_map_iff in Hin as (w & Ew & Hw). unfold fv in Ew. injection Ew as Ef Ev. subst fW v.
       destruct (HfW w Hw) as (HinW & HokWf & HsW).
@@ -508,11 +528,12 @@ Proof.
       unfold nilp in Hnilw. rewrite (nil_erase _ _ _ Eer) in Hnilw.
       destruct (nil_slot dR (pf_pos q) (pf_fld q) (pf_val vsW w) H1 H2 Hnilw) as [Hr Hv].
       destruct q as [qp qf]. cbn [pf_pos pf_fld] in *. rewrite Hr, Hv. reflexivity.
-    + (* a field only the reader knows *)
-      destruct (Hronly (pf_fld q) HinR H2) as [Hnil _].
-      { intros fW HfWin HfWs E. apply In_nth_error in HfWin as [kk Hkk].
+    + (* a field only the reader knows: nil, whether its position was met (gap null) or not *)
+      assert (Hnil : nil_of (pf_fld q) <> None).
+      { apply (Hronly (pf_fld q) HinR H2). intros fW HfWin HfWs E. apply In_nth_error in HfWin as [kk Hkk].
         pose proof (HsomeW (mkpf kk fW) (in_sorted_nth fsW kk fW Hkk HfWs)) as Hsm. unfold pf_idx in Hsm. cbn [pf_fld] in Hsm. rewrite E in Hsm. congruence. }
       unfold nil_or_unit. destruct (nil_of (pf_fld q)) as [nv|] eqn:En; [|congruence].
+      assert (Ginit : resolve_slot q (init_slot q) = Datatypes.inl nv); [|destruct (met e LW vsW q), (has_tag (pf_fld q)); try exact Ginit; unfold resolve_slot; reflexivity].
       unfold resolve_slot, init_slot. rewrite En.
       destruct (f_synopt (pf_fld q)) eqn:Es; [|reflexivity].
       unfold field_ok in H1. rewrite H2 in H1. apply andb_prop in H1 as [_ H1]. apply andb_prop in H1 as [H1 Hc]. apply andb_prop in H1 as [_ Hsyn].
@@ -520,28 +541,58 @@ Proof.
       destruct (f_codec (pf_fld q)) as [| |[|]]; try (rewrite Hsyn in En); try (injection En as <-; reflexivity).
       destruct (f_ty (pf_fld q)) as [[]| | |]; cbn in Hc, Hsyn; discriminate.
 Qed.
+
+(* … and the same one level up: a struct definition in two versions (same encoding and tag; names, declaration
+   order, n/b, named/tuple free) *)
+Theorem struct_compat_reads dW dR e tag shW shR fsW fsR vsW cs :
+  def_ok dW (DStruct e tag false shW fsW) = true -> def_ok dR (DStruct e tag false shR fsR) = true ->
+  fields_all okty fsR -> fields_rt ntr fsR = true -> body_compat fsW fsR ->
+  (forall pf z, In pf (sorted_fields fsW) -> (forall q, In q (sorted_fields fsR) -> pf_idx q <> pf_idx pf) ->
+     enc_field_fn recE (pf_fld pf) (pf_val vsW pf) = Some z ->
+     flat z <> [] /\ skippable c (flat (enc_tag_opt (f_tag (pf_fld pf)) ++ z))) ->
+  enc_def recE (DStruct e tag false shW fsW) (VList vsW) = Some cs ->
+  reads_f (dec_def c recD (DStruct e tag false shR fsR)) (flat cs) (VList (migrate_fields recV fsW vsW fsR)).
+Proof.
+  intros HokW HokR Hall Hrt Hcompat Hsk He. cbn [def_ok enc_def] in *.
+  apply andb_prop in HokW as [HokW _]. apply andb_prop in HokW as [HokW _]. apply andb_prop in HokW as [_ HfW].
+  apply andb_prop in HokR as [HokR _]. apply andb_prop in HokR as [HokR _]. apply andb_prop in HokR as [Htag HfR].
+  apply ocat3_some in He as (y & Hy & ->).
+  pose proof (fields_compat_reads dW dR (struct_encoding e) shR fsW fsR vsW y HfW HfR Hall Hrt Hcompat Hsk Hy) as Hrd.
+  intros fuel r p L Hfu HL Hp. cbn [dec_def]. rewrite flat_app, <- app_assoc in *. rewrite len_app in Hp. rewrite app_length in Hfu.
+  assert (Hp1 : p + len (flat (enc_tag_opt tag)) <= L) by lia.
+  rewrite (bind_ok _ _ _ _ _ (dec_tag_check_enc tag (flat y ++ r) p L Htag Hp1)).
+  rewrite Hrd; [|lia|assumption|lia]. f_equal. f_equal. rewrite len_app. lia.
+Qed.
 End Compat.
 
 (* ---- guarantee 4: an unknown variant in an optional field becomes None, the siblings stay intact ---- *)
-(* If the field's decode function fails with UnknownVariant after consuming b1 and what is left of the item (b2) is
-   skipped as one item, the field action succeeds without filling the slot and stops right after the item. *)
-Lemma handler_skips c recD f n b1 b2 :
-  has_handler f = true -> tag_ok (f_tag f) = true -> skippable c b2 ->
-  (forall fuel r p L, (length ((b1 ++ b2) ++ r) < fuel)%nat -> L < two64 -> p + len (b1 ++ b2) <= L ->
-     dec_field_fn c recD f fuel (mkdst p ((b1 ++ b2) ++ r) L) = (Err (UnknownVariant n), mkdst (p + len b1) (b2 ++ r) L)) ->
-  reads_f (field_action c recD f) (flat (enc_tag_opt (f_tag f)) ++ b1 ++ b2) None.
+(* If the field's decode function fails with UnknownVariant — wherever it stopped — and the field's value b is
+   skipped as one item, the field action succeeds without filling the slot and stops right after the value:
+   the handler goes back to the first byte of the value before it skips (F9 repair), so this holds for index_only
+   enums (b is the bare index) as for regular ones (b is [index, body]). *)
+Lemma handler_skips c recD f n b :
+  has_handler f = true -> tag_ok (f_tag f) = true -> skippable c b ->
+  (forall fuel r p L, (length (b ++ r) < fuel)%nat -> L < two64 -> p + len b <= L ->
+     exists s', dec_field_fn c recD f fuel (mkdst p (b ++ r) L) = (Err (UnknownVariant n), s')) ->
+  reads_f (field_action c recD f) (flat (enc_tag_opt (f_tag f)) ++ b) None.
 Proof.
-  intros Hh Htag Hsk Hdec fuel r p L Hfu HL Hp. rewrite !len_app in Hp. rewrite !app_length in Hfu.
-  replace ((flat (enc_tag_opt (f_tag f)) ++ b1 ++ b2) ++ r) with (flat (enc_tag_opt (f_tag f)) ++ ((b1 ++ b2) ++ r)) by (now rewrite <- !app_assoc).
-  unfold field_action.
-  assert (Hp1 : p + len (flat (enc_tag_opt (f_tag f))) <= L) by lia.
-  rewrite (bind_ok _ _ _ _ _ (dec_tag_check_enc (f_tag f) _ p L Htag Hp1)).
-  assert (Hfu1 : (length ((b1 ++ b2) ++ r) < fuel)%nat) by (rewrite !app_length; lia).
-  assert (Hp2 : p + len (flat (enc_tag_opt (f_tag f))) + len (b1 ++ b2) <= L) by (rewrite len_app; lia).
-  unfold try_unknown.
-  rewrite (Hdec fuel r _ L Hfu1 HL Hp2). rewrite Hh.
-  assert (Hp3 : p + len (flat (enc_tag_opt (f_tag f))) + len b1 + len b2 <= L) by lia.
-  rewrite (bind_ok _ _ _ _ _ (Hsk r _ L HL Hp3)). unfold ret. f_equal. f_equal. rewrite !len_app. lia.
+  intros Hh Htag Hsk Hdec fuel r p L Hfu HL Hp. rewrite !len_app in Hp. rewrite !app_length in Hfu. rewrite <- app_assoc.
+  assert (Hact : (dec_tag_check (f_tag f) ;;; try_unknown c (has_handler f) (dec_field_fn c recD f fuel))
+                   (mkdst p (flat (enc_tag_opt (f_tag f)) ++ b ++ r) L)
+                 = (Ok None, mkdst (p + len (flat (enc_tag_opt (f_tag f)) ++ b)) r L)).
+  { assert (Hp1 : p + len (flat (enc_tag_opt (f_tag f))) <= L) by lia.
+    rewrite (bind_ok _ _ _ _ _ (dec_tag_check_enc (f_tag f) _ p L Htag Hp1)).
+    assert (Hfu1 : (length (b ++ r) < fuel)%nat) by (rewrite app_length; lia).
+    assert (Hp2 : p + len (flat (enc_tag_opt (f_tag f))) + len b <= L) by lia.
+    destruct (Hdec fuel r _ L Hfu1 HL Hp2) as [s' Hs']. unfold try_unknown. rewrite Hs', Hh.
+    rewrite (bind_ok _ _ _ _ _ (Hsk r _ L HL Hp2)). unfold ret. f_equal. f_equal. rewrite len_app. lia. }
+  unfold field_action. destruct (has_tag f && has_handler f) eqn:Eg; [|exact Hact].
+  apply andb_prop in Eg as [Eg _]. unfold has_tag in Eg. destruct (f_tag f) as [t|] eqn:Et; [|discriminate].
+  cbn [enc_tag_opt] in *.
+  pose proof (hd_class_type_len TAGGED t (b ++ r) (or_intror (or_intror eq_refl))) as Hhd. fold (enc_tag t) in Hhd.
+  destruct (flat (enc_tag t) ++ b ++ r) as [|x rest] eqn:Eb; [discriminate|].
+  destruct (datatype_hd x rest p L Hhd) as (ty & Hd & Hn).
+  rewrite (bind_ok _ _ _ _ _ Hd), Hn. exact Hact.
 Qed.
 
 (* an Option<enum> field: the enum's UnknownVariant error reaches the handler from where the enum decoder stopped *)
@@ -559,7 +610,7 @@ Proof.
   rewrite (fmap_err _ _ _ _ _ (Hrec fuel r p L Hfu HL Hp)). reflexivity.
 Qed.
 
-(* ---- the witnesses of F9 and F10 ---- *)
+(* ---- the former witnesses of F9 and F10, now read as documented ---- *)
 Definition f9_holder : def :=
   DStruct None None false DsNamed
     [mkfield 0 false None CoDefault false false (FTy (TyU B8)); mkfield 1 false None CoDefault true false (FOpt (FRef 0));
@@ -568,9 +619,9 @@ Definition f9_writer : schema := [DEnum None None true [mkvariant 0 None None Ds
 Definition f9_reader : schema := [DEnum None None true [mkvariant 0 None None DsUnit []; mkvariant 1 None None DsUnit []]; f9_holder].
 Definition f9_value : value := VList [VNat 1; VSome (VVar 7 (VList [])); VNat 9].
 
-Lemma f9_refuted : schema_ok f9_writer = true /\ schema_ok f9_reader = true /\
+Lemma f9_repaired : schema_ok f9_writer = true /\ schema_ok f9_reader = true /\
   option_map flat (gen_encode f9_writer 1 f9_value) = Some [131; 1; 7; 9] /\
-  gen_decode cfg_full f9_reader 1 (start [131; 1; 7; 9]) = (Err EndOfInput, mkdst 4 [] 4).
+  gen_decode cfg_full f9_reader 1 (start [131; 1; 7; 9]) = (Ok (VList [VNat 1; VNone; VNat 9]), mkdst 4 [] 4).
 Proof. vm_compute. repeat split. Qed.
 
 (* the same edit on a regular enum works as documented *)
@@ -586,9 +637,9 @@ Definition f10_writer : schema :=
 Definition f10_reader : schema :=
   [DStruct None None false DsNamed [mkfield 0 false None CoDefault false false (FTy (TyU B8)); mkfield 1 false (Some 9) CoDefault true false (FTy (TyOpt (TyU B8)));
                                     mkfield 2 false None CoDefault false false (FTy (TyU B8))]].
-Lemma f10_refuted : schema_ok f10_writer = true /\ schema_ok f10_reader = true /\
+Lemma f10_repaired : schema_ok f10_writer = true /\ schema_ok f10_reader = true /\
   option_map flat (gen_encode f10_writer 0 (VList [VNat 1; VNat 3])) = Some [131; 1; 246; 3] /\
-  gen_decode cfg_full f10_reader 0 (start [131; 1; 246; 3]) = (Err (TypeMismatch TNull), mkdst 3 [3] 4).
+  gen_decode cfg_full f10_reader 0 (start [131; 1; 246; 3]) = (Ok (VList [VNat 1; VNone; VNat 3]), mkdst 4 [] 4).
 Proof. vm_compute. repeat split. Qed.
 
 (* C06 + C08 give the skippability that fields_compat_reads asks for: a (tagged) item whose bytes are the
